@@ -1,0 +1,375 @@
+! This file of Fortran code has been generated programmatically by
+! `fsic.fortran`, a module of `fsic` (Version 0.8.0.dev).
+!
+! This module embeds the following equation(s) in the `evaluate()` subroutine:
+!
+!   s[t] = 1 - (C[t] / Y[t])
+!   C[t] = c0[t] + c1[t] * Y[t]
+!   Y[t] = C[t] + G[t]
+!   g[t] = log(G[t])
+
+module structure
+  implicit none
+
+  integer :: lags = 0, leads = 0
+
+  ! Index numbers of different variable types
+  integer, dimension(4) :: endogenous = (/ 1, 2, 3, 4 /)
+  integer, dimension(1) :: exogenous = (/ 5 /)
+  integer, dimension(2) :: parameters = (/ 6, 7 /)
+  integer, dimension(0) :: errors
+
+end module structure
+
+
+module failure_codes
+  implicit none
+
+  ! Failure control options, to match Python implementation
+  integer :: failure_control_raise = 0
+  integer :: failure_control_ignore = 2
+
+end module failure_codes
+
+module error_codes
+  implicit none
+
+  ! Error control options, to match Python implementation
+  integer :: error_control_raise = 0
+  integer :: error_control_skip = 1
+  integer :: error_control_ignore = 2
+  integer :: error_control_replace = 3
+
+  ! Indexing / array bounds errors
+  integer :: index_error_below = 11, index_error_above = 12
+  integer :: index_error_lags = 13, index_error_leads = 14
+
+  ! Numerical solution errors
+  integer :: numerical_error_raise = 21
+  integer :: numerical_error_skip = 22
+  integer :: numerical_error_ignore = 23
+  integer :: numerical_error_replace = 24
+
+  ! Convergence check errors
+  integer :: pre_existing_non_finite_value = 31
+
+  ! Offset errors
+  integer :: offset_predates_span = 41, offset_postdates_span = 42
+
+end module error_codes
+
+
+subroutine evaluate(initial_values, t, solved_values, error_code, nrows, ncols)
+  use structure
+  use error_codes
+  implicit none
+
+  ! `nrows` is the number of variables
+  ! `ncols` is the full number of periods in the current model instance
+  integer, intent(in) :: nrows, ncols
+
+  real(8), dimension(nrows, ncols), intent(in) :: initial_values
+  integer, intent(in) :: t
+
+  real(8), dimension(nrows, ncols), intent(out) :: solved_values
+  integer, intent(out) :: error_code
+
+  integer :: index
+
+  ! Copy the initial values before evaluation
+  ! (copy all values to avoid having to know which elements will change)
+  solved_values = initial_values
+
+  ! Initialise error code to -1 to indicate not yet resolved
+  error_code = -1
+
+  ! Reproduce the behaviour in the original Python version of `_evaluate()` to
+  ! allow reverse indexing
+  index = t
+  if(index < 1) then
+     index = index + ncols
+  end if
+
+  ! Error if `index` is still out of bounds
+  if(index < 1) then
+     error_code = index_error_below
+     return
+  else if(index > ncols) then
+     error_code = index_error_above
+     return
+  end if
+
+  ! Check that `index` allows for enough lags and leads
+  if(index <= lags) then
+     error_code = index_error_lags
+     return
+  else if(index > (ncols - leads)) then
+     error_code = index_error_leads
+     return
+  end if
+
+  ! ---------------------------------------------------------------------------
+  ! s[t] = 1 - (C[t] / Y[t])
+  solved_values(1, index) = 1 - (solved_values(2, index) / solved_values(3, index))
+
+  ! C[t] = c0[t] + c1[t] * Y[t]
+  solved_values(2, index) = solved_values(6, index) + solved_values(7, index) * solved_values(3,  &
+  &  index)
+
+  ! Y[t] = C[t] + G[t]
+  solved_values(3, index) = solved_values(2, index) + solved_values(5, index)
+
+  ! g[t] = log(G[t])
+  solved_values(4, index) = log(solved_values(5, index))
+  ! ---------------------------------------------------------------------------
+
+  ! If here, evaluation ran through seemingly without hitch: Return 0
+  error_code = 0
+
+end subroutine evaluate
+
+
+subroutine solve_t(initial_values, t, min_iter, max_iter, tol, offset, convergence_variables, error_control,  &
+                &  solved_values, converged, iteration, error_code,                                           &
+                &  nrows, ncols, nvars)
+  use, intrinsic :: ieee_arithmetic
+  use structure
+  use error_codes
+  implicit none
+
+  ! `nrows` is the number of variables
+  ! `ncols` is the number of periods
+  integer, intent(in) :: nrows, ncols
+
+  ! `nvars` is the number of variables to check for convergence (indexes set in
+  ! `convergence_variables`)
+  integer, intent(in) :: nvars
+
+  real(8), dimension(nrows, ncols), intent(in) :: initial_values
+  integer, intent(in) :: t, min_iter, max_iter
+  real(8), intent(in) :: tol
+  integer, intent(in) :: offset
+  integer, dimension(nvars), intent(in) :: convergence_variables
+  integer, intent(in) :: error_control
+
+  real(8), dimension(nrows, ncols), intent(out) :: solved_values
+  logical, intent(out) :: converged
+  integer, intent(out) :: iteration, error_code
+
+  real(8), dimension(nrows, ncols) :: previous_values
+  real(8), dimension(nvars) :: current_check, previous_check, diff
+
+  integer :: index, offset_location, i
+
+  ! Copy the initial values before solution
+  ! (copy all values to avoid having to know which elements will change)
+  solved_values = initial_values
+  converged = .false.
+
+  ! Initialise error code to -1 to indicate not yet resolved
+  error_code = -1
+
+  ! Reproduce the behaviour in the original Python version of `_evaluate()` to
+  ! allow reverse indexing
+  index = t
+  if(index < 1) then
+     index = index + ncols
+  end if
+
+  ! Error if `index` is still out of bounds
+  if(index < 1) then
+     error_code = index_error_below
+     return
+  else if(index > ncols) then
+     error_code = index_error_above
+     return
+  end if
+
+  ! Check that `index` allows for enough lags and leads
+  if(index <= lags) then
+     error_code = index_error_lags
+     return
+  else if(index > (ncols - leads)) then
+     error_code = index_error_leads
+     return
+  end if
+
+  ! Optionally copy initial values from another period
+  if(offset /= 0) then
+
+     offset_location = index + offset
+
+     if(offset_location < 1) then
+        error_code = offset_predates_span
+        return
+     else if(offset_location > ncols) then
+        error_code = offset_postdates_span
+        return
+     end if
+
+     solved_values(endogenous, index) = solved_values(endogenous, offset_location)
+
+  end if
+
+  ! Array of variable values to check for convergence
+  current_check = solved_values(convergence_variables, index)
+
+  ! Check for pre-existing NaNs or infinities
+  if(error_control == error_control_raise .and. any(.not. ieee_is_finite(current_check))) then
+     error_code = pre_existing_non_finite_value
+     return
+  end if
+
+  ! No errors so far: `evaluate()` sets the error code each iteration but the
+  ! loop below may not run at all (`max_iter < 1`)
+  error_code = 0
+
+  ! Solve
+  do iteration = 1, max_iter
+
+     ! Save the values of the convergence variables
+     previous_check = current_check
+
+     ! Evaluate the system of equations
+     previous_values = solved_values
+     call evaluate(previous_values, index, solved_values, error_code, nrows, ncols)
+
+     ! Get the new values of the convergence variables
+     current_check = solved_values(convergence_variables, index)
+
+     ! Check error code and return if a problem is found
+     ! (indicated by a non-zero error code)
+     if(error_code /= 0) then
+        return
+     end if
+
+     ! Check for numerical errors
+     if(any(.not. ieee_is_finite(solved_values(endogenous, index)))) then
+
+        if(error_control == error_control_raise) then
+           error_code = numerical_error_raise
+           return
+
+        else if(error_control == error_control_skip) then
+           error_code = numerical_error_skip
+           return
+
+        else if(error_control == error_control_ignore) then
+           cycle
+
+        else if(error_control == error_control_replace) then
+           ! Only replace values if there are still iterations to go
+           ! i.e. a chance for the solution to resolve itself
+           if(iteration < max_iter) then
+
+              do i = 1, size(endogenous)
+                 if(.not. ieee_is_finite(solved_values(endogenous(i), index))) then
+                    solved_values(endogenous(i), index) = 0.0
+                 end if
+              end do
+
+           end if
+
+           cycle
+
+        end if
+
+     end if
+
+     if(iteration < min_iter) then
+        cycle
+     end if
+
+     ! Test for convergence
+     diff = current_check - previous_check
+
+     if(all(abs(diff) < tol)) then
+        converged = .true.
+        exit
+     end if
+
+  end do
+
+  if(.not. converged) then
+     iteration = iteration - 1
+  end if
+
+end subroutine solve_t
+
+subroutine solve(initial_values, indexes,                                                                 &
+              &  min_iter, max_iter, tol, offset, convergence_variables, failure_control, error_control,  &
+              &  solved_values, convergence_results, iterations, solution_error_codes,                    &
+              &  nrows, ncols, nvars, nperiods)
+  use, intrinsic :: ieee_arithmetic
+  use structure
+  use failure_codes
+  use error_codes
+  implicit none
+
+  ! `nrows` is the number of variables
+  ! `ncols` is the full number of periods in the current model instance
+  integer, intent(in) :: nrows, ncols
+
+  ! `nvars` is the number of variables to check for convergence (indexes set in
+  ! `convergence_variables`)
+  integer, intent(in) :: nvars
+
+  ! `nperiods` is the number of periods to solve
+  integer, intent(in) :: nperiods
+
+  real(8), dimension(nrows, ncols), intent(in) :: initial_values
+  integer, dimension(nperiods), intent(in) :: indexes
+  integer, intent(in) :: min_iter, max_iter
+  real(8), intent(in) :: tol
+  integer, intent(in) :: offset
+  integer, dimension(nvars), intent(in) :: convergence_variables
+  integer, intent(in) :: failure_control, error_control
+
+  real(8), dimension(nrows, ncols), intent(out) :: solved_values
+  logical, dimension(nperiods), intent(out) :: convergence_results
+  integer, dimension(nperiods), intent(out) :: iterations, solution_error_codes
+
+  integer :: i
+  real(8), dimension(nrows, ncols) :: previous_values
+  logical :: converged
+  integer :: iteration, error_code
+
+  ! Copy the initial values before solution
+  solved_values = initial_values
+
+  ! Initialise other results variables to -1 (not yet resolved)
+  convergence_results = .false.
+  iterations = -1
+  solution_error_codes = -1
+
+  do i = 1, nperiods
+
+     previous_values = solved_values
+
+     call solve_t(previous_values, indexes(i), min_iter, max_iter, tol, offset, convergence_variables, error_control,  &
+               &  solved_values, converged, iteration, error_code,                                                     &
+               &  nrows, ncols, nvars)
+
+     iterations(i) = iteration
+     solution_error_codes(i) = error_code
+
+     ! No errors: Check if converged or not
+     if(error_code == 0) then
+
+        if(converged) then
+           ! Converged: Store and continue
+           convergence_results(i) = .true.
+
+        else if(failure_control == failure_control_raise) then
+           ! Failed to converge: Raise an error as required
+           return
+        end if
+
+     ! Errors: Raise as required
+     else if(error_control == error_control_raise) then
+        return
+     end if
+
+  end do
+
+end subroutine solve
